@@ -53,6 +53,11 @@ def gen(seed, tier):
         for op in ("s_center", "s_ljust", "s_rjust"):
             out.append(f"{op} {sa([1], [t])} {arr([6], [0, 1, 2, 3, 6, 7])} n")
             out.append(f"{op} {sa([1], [t])} {arr([1], [5])} {arr([1], [ord('*')])}")
+    # compare with an operator name (symbols, words, any letter case, unknown names)
+    for name in ("==", "!=", ">", "<", ">=", "<=", "equals", "NOT_EQUALS", "Greater", "less", "greater_equal", "LESS_EQUAL", "=", "eq", "", "=>"):
+        for t in texts[::9]:
+            out.append(f"s_compare {sa([1], [t])} {sa([len(subs)], subs)} s{hexs(name)}")
+        out.append(f"s_compare {sa([2, 1], ['a ', 'b'])} {sa([3], ['a', 'a  ', 'B'])} s{hexs(name)}")
     # translate: every character through the first matching table entry (tables with repeated keys, identity, chains)
     tables = [[], [("a", "b")], [("a", "b"), ("b", "a")], [("a", "x"), ("a", "y")], [(" ", "_"), ("-", " ")], [("A", "a"), ("a", "A"), ("0", "1")]]
     for tb in tables:
